@@ -11,7 +11,7 @@ var commonAssumptions = []string{
 // properties lists, per property id, the rules whose obligations decide its structural clauses.
 var properties = []Property{
 	{ID: "C01", Title: "Expression value follows precedence, associativity and operand order",
-		Rules:     []string{"GRAM.chain", "GRAM.table", "GRAM.postorder", "GRAM.operands", "GRAM.exhaustive", "GRAM.arity", "GRAM.lex", "GRAM.emptycase"},
+		Rules:     []string{"GRAM.chain", "GRAM.table", "GRAM.postorder", "GRAM.operands", "GRAM.exhaustive", "GRAM.arity", "GRAM.lex", "GRAM.emptycase", "PURE.calc"},
 		Technique: "SSA model extraction of the recursive-descent parser and the stack evaluator, compared with the precedence/arity table of the statement",
 		Explanation: "The parser's level functions, the operator constants each level tests and emits, the call order between an operator match and its emission, and the evaluator's per-token handlers (pops, invoked variant operation, argument order) are extracted from go/ssa and compared with the precedence table, associativity and operand order stated in the property; the lexeme and token-type tables are checked pairwise through a closed loop ending in each operation's own error message.",
 		NotDecided: "the computed values themselves (C06), equality with a reference evaluator over all trees, tokenisation of whitespace/comments (C04/C13)",
@@ -59,7 +59,7 @@ var properties = []Property{
 	},
 	 
 	{ID: "C08", Title: "Built-in functions compute what their names denote",
-		Rules:     []string{"FUNC.table", "FUNC.chain", "FUNC.arity", "FUNC.fold", "PANIC.recover", "PANIC.result", "TAG.access", "PANIC.index"},
+		Rules:     []string{"FUNC.table", "FUNC.chain", "FUNC.arity", "FUNC.fold", "PANIC.recover", "PANIC.result", "TAG.access", "PANIC.index", "PURE.calc"},
 		Technique: "registration-table resolution, normalised SSA result expressions per registered name, abstract interpretation over the argument count",
 		Explanation: "The 37 registrations are resolved from NewDefaultFunctionCollection (name → calculator function value). For names that denote a host function or constant the calculator's success result must be exactly that host function on the converted first argument; every calculator is abstractly interpreted over n = len(parameters) ∈ {0..8, 9+} (branches on n and on checkParamCount folded, all others explored) to derive the accepted counts and compare them with the statement's, and to show parameter k is read only when n > k; Min/Max/Sum/If/Choose/Contains/Abs have structural checks; the panic-to-error wrapper must bind named results; asserting accessors and result tuples are discharged as in C03.",
 		NotDecided: "numeric values, Date/TimeSpan calendar arithmetic, clock interval bounds beyond 'derives from time.Now()', Rnd range beyond 'is rand.Float32() unmodified'",
@@ -92,7 +92,12 @@ var properties = []Property{
 		Rules:     []string{"MAP.flow", "MAP.order", "MAP.split", "MAP.disable", "MAP.callers", "PANIC.index"},
 		Technique: "value-flow of Lookup's results, insertion/search order agreement, boundary-constant agreement, dominating-guard bounds proof",
 	},
-	 {ID: "C18"}, {ID: "C19"}, {ID: "C20"},
+	 {ID: "C18"}, 
+	{ID: "C19", Title: "Evaluation is pure and repeatable, also under concurrent use",
+		Rules:     []string{"PURE.eval", "PURE.global", "PURE.nogo"},
+		Technique: "interprocedural effect analysis with a freshness (ownership) fixpoint over the call graph",
+	},
+	 {ID: "C20"},
 }
 
 func init() {
